@@ -85,7 +85,7 @@ Fixpoint stream_ok (cmds dec : list command) : bool :=
       if fm_is_empty m then stream_ok r dec
       else match dec with d :: dec' => command_eqb d (CmdFaceModify m) && stream_ok r dec' | [] => false end
   | CmdChar c :: r =>
-      match dec with d :: dec' => command_eqb d (CmdChar c) && stream_ok r dec' | [] => false end
+      match dec with d :: dec' => command_eqb d (CmdChar (char_out c)) && stream_ok r dec' | [] => false end
   | CmdFace f :: r =>
       match dec with
       | CmdFaceModify m' :: dec' =>
@@ -141,7 +141,7 @@ Definition c06_check (c : c06_case) : bool * bool :=
                 list_eqb2 (fun (_ : face) o => rface_eqb (expressible (abs_face f)) (obs_rface o)) gs impl_applied
             | _ => false
             end
-        | CmdChar ch => list_eqb command_eqb impl_dec [CmdChar ch]
+        | CmdChar ch => list_eqb command_eqb impl_dec [CmdChar (char_out ch)]
         | CmdRaw _ => true
         end in
       (agree, holds)
